@@ -2,6 +2,7 @@ import NopModel.Lemmas.StopsDec
 import NopModel.Lemmas.EncWEmits
 import NopModel.Lemmas.Size
 import NopModel.Rpc
+import NopModel.Lemmas.RoundTrip
 /-! C10 — I/O errors propagate verbatim and stop the operation (read side, then write side). -/
 namespace Nop
 
@@ -77,6 +78,26 @@ theorem C10_write_refines (t : Ty) (v : Val) (h : HChan) (bs : Bytes) (h' : HCha
     simp only [hfit.2.2, Bool.not_true, Bool.false_eq_true, ↓reduceIte, preW_clean hfit.1, hfit.2.1]
   rw [hp]
   exact encW_emits t v h bs h' he s hc ⟨hfit.1, room_mono hle hfit.2.1, framesOk_mono hle hfit.2.2⟩
+
+/-- **End to end at call level.** `Serializer::Write` on any healthy writer with room (any
+stack of `BoundedWriter`s, checked or unchecked, whatever is already in the sink), followed by
+`Deserializer::Read` — into a destination holding any prior value, through any reader
+configuration — of exactly the bytes the writer's calls appended plus anything after them,
+yields the value written and consumes exactly the appended bytes. The two halves are
+`C10_write_refines` (calls add up to `encode`) and the round-trip induction. -/
+theorem C10_write_then_read (t : Ty) (hwf : t.wf = true) (v : Val) (hv : valid t v = true)
+    (h : HChan) (bs : Bytes) (h' : HChan) (he : encode t v h = .ok (bs, h'))
+    (w : Snk) (hc : w.chan = h) (hfit : w.fits (size t v))
+    (prior : Val) (s : Src) (rest : Bytes) (hcs : s.fault = .none)
+    (hb : w.out ++ s.bytes = (serialize t v w).2.out ++ rest)
+    (hf : framesOk bs.length s.frames = true) (hr : Resolves s.handles h'.pushed) :
+    (serialize t v w).1 = .ok () ∧ decInto t prior s = (.ok v, s.adv bs.length) := by
+  have hw := C10_write_refines t v h bs h' he w hc hfit
+  rw [hw] at hb ⊢
+  refine ⟨rfl, ?_⟩
+  have hb' : s.bytes = bs ++ rest := by
+    simpa [Snk.acc, List.append_assoc] using hb
+  exact (rt t hwf).decInto prior hv he s rest hcs hb' hf hr
 
 /-- a writer without room for `Size(value)` refuses in `Prepare`: nothing is written -/
 theorem C10_write_no_room (t : Ty) (v : Val) (s : Snk) (hc : s.fault = .none) (hr : s.room (size t v) = false) :
